@@ -34,6 +34,14 @@ Section P.
     intros Hi Hf. unfold set_option. rewrite Hf, with_opt_same, configure_inv_noop by exact Hi. reflexivity.
   Qed.
 
+  (* one update with a new file AND an unparsable filter is rejected before the file is touched *)
+  Theorem bad_filter_is_noop s o : inv s -> set_option_bad_filter openable o s = (s, true).
+  Proof.
+    intros Hi. unfold set_option_bad_filter.
+    assert (E : with_opt (with_opt s o) (opt s) = s) by (destruct s; reflexivity).
+    rewrite E, configure_inv_noop by exact Hi. reflexivity.
+  Qed.
+
   Lemma set_option_inv s o : inv s -> inv (fst (set_option openable o s)).
   Proof.
     intros Hi. destruct (configure openable (with_opt s o)) as [s2|] eqn:E.
@@ -76,7 +84,10 @@ Section P.
   Qed.
 
   Lemma step_inv s e : inv s -> inv (fst (step openable s e)).
-  Proof. destruct e; cbn [step fst]; auto using set_option_inv, save_flow_inv. Qed.
+  Proof.
+    destruct e; cbn [step fst]; auto using set_option_inv, save_flow_inv.
+    intros Hi. now rewrite bad_filter_is_noop.
+  Qed.
 
   Lemma run_inv evs : forall s, inv s -> inv (run openable s evs).
   Proof. induction evs as [|e r IH]; intros s Hi; cbn [run]; auto using step_inv. Qed.
@@ -90,7 +101,8 @@ Section P.
     forall q, fs (run openable s evs) q = reference openable evs (opt s) f q.
   Proof.
     induction evs as [|e r IH]; intros s f Hi Hf q; cbn [run reference]; [apply Hf|].
-    destruct e as [o|x]; cbn [step fst].
+    destruct e as [o|o|x]; cbn [step fst].
+    2:{ rewrite (bad_filter_is_noop s o Hi). cbn [fst]. now apply IH. }
     - pose proof (set_option_inv s o Hi) as Hi2.
       destruct (configure openable (with_opt s o)) as [s2|] eqn:E.
       + assert (Es : fst (set_option openable o s) = s2) by (unfold set_option; rewrite E; reflexivity).
@@ -143,6 +155,10 @@ Section P.
   Proof.
     intros s. apply failed_change_is_noop. apply run_inv. split; [reflexivity|cbn; split; reflexivity].
   Qed.
+
+  Theorem reachable_bad_filter_is_noop f evs o :
+    let s := run openable (init_state f) evs in set_option_bad_filter openable o s = (s, true).
+  Proof. intros s. apply bad_filter_is_noop. apply run_inv. split; [reflexivity|cbn; split; reflexivity]. Qed.
 
   Theorem reachable_save_flow_appends f evs r :
     let s := run openable (init_state f) evs in
